@@ -269,18 +269,26 @@ def decode_all(data, validate):
     except Exception:
         # a caller may poll the same reader again after an error: that must stay inside the
         # buffer too (and may only raise ordinary errors)
-        for _ in range(3):
-            try:
-                if mr.has_next():
-                    b2 = mr.next_batch()
-                    if b2 is not None and validate:
-                        b2.validate_crc()
-            except (SystemError, MemoryError):
-                raise
-            except Exception:  # noqa: BLE001
-                pass
+        _repoll(mr, validate)
         raise
+    _repoll(mr, validate)
     return nrec, crcs
+
+
+def _repoll(mr, validate):
+    """next_batch() may be called whatever has_next() said (it returns None at the end of the
+    buffer): poll a few more times, with and without asking first."""
+    for k in range(4):
+        try:
+            if k % 2 == 0:
+                mr.has_next()
+            b2 = mr.next_batch()
+            if b2 is not None and validate:
+                b2.validate_crc()
+        except (SystemError, MemoryError):
+            raise
+        except Exception:  # noqa: BLE001
+            pass
 
 
 def worker_main(argv):
